@@ -190,8 +190,22 @@ func (c *Conn) SetDeadline(t time.Time) error {
 	return c.SetWriteDeadline(t)
 }
 
+// xlate maps a deadline computed by code that is not rewritten (crypto/tls
+// uses the real time.Now() for its close-notify and handshake deadlines) onto
+// the virtual clock: real deadlines lie years before the virtual epoch, so
+// they are recognisable; their distance from the real now, rounded to 100 ms,
+// is applied to the virtual now.
+func (s *Sched) xlate(t time.Time) time.Time {
+	if t.IsZero() || !t.Before(s.epoch.Add(-24*time.Hour)) {
+		return t
+	}
+	d := time.Until(t).Round(100 * time.Millisecond)
+	return s.epoch.Add(s.clock + d)
+}
+
 func (c *Conn) SetReadDeadline(t time.Time) error {
 	s := S
+	t = s.xlate(t)
 	var err error
 	s.do(c.in.obj, "SetReadDeadline", nil, func() {
 		if c.closed {
@@ -213,6 +227,7 @@ func (c *Conn) SetReadDeadline(t time.Time) error {
 
 func (c *Conn) SetWriteDeadline(t time.Time) error {
 	s := S
+	t = s.xlate(t)
 	var err error
 	s.do(c.out.obj, "SetWriteDeadline", nil, func() {
 		if c.closed {
@@ -242,3 +257,9 @@ func (c *Conn) PeerClosed() bool { return c.peer.closed }
 func (c *Conn) Pending() int { return len(c.out.buf) }
 
 var _ net.Conn = (*Conn)(nil)
+
+// Readable reports whether a Read on this end would return without waiting
+// for the peer (data buffered, EOF, or this end closed). Harness use only.
+func (c *Conn) Readable() bool {
+	return c.closed || len(c.in.buf) > 0 || c.in.wclosed
+}
